@@ -8,6 +8,7 @@ import Bita.Proofs.ProtoRoundtrip
 import Bita.Proofs.Schedule
 import Bita.Proofs.CliFs
 import Bita.Proofs.OptionsCompose
+import Bita.Proofs.Metadata
 
 namespace Bita.Props.C11
 open Bita Bita.Proto Bita.Spec Bita.Proofs
@@ -175,6 +176,31 @@ theorem cli_requested_is_reported (a : Options.CompressArgs) (p : Options.Compre
       compressionFromDict [] c = .ok p.cmd.opts.compression ∧
       (dictionaryOf H "cli" comp p.cmd.opts src).1.metadata = [] :=
   Proofs.cli_requested_is_reported a p h hm H comp src
+
+/-- **Metadata, from the command line to the archive.**  The map `compress_cmd` builds from the
+`--metadata-value` pairs and then the `--metadata-file` pairs (model `Options.metadataOf`, tied by CLI
+runs with repeated keys and files in `py c11_conformance`) is strictly ascending by key - so no key is
+recorded twice - holds only pairs that were given, and records for every key the LAST value given. -/
+theorem cli_metadata_map (strings files : List (Bytes × Bytes)) :
+    (Options.metadataOf strings files).Pairwise Proofs.KeyLt ∧
+    (∀ e ∈ Options.metadataOf strings files, e ∈ strings ++ files) ∧
+    ∀ k, Proofs.metaLookup (Options.metadataOf strings files) k = Proofs.lastGiven (strings ++ files) k :=
+  ⟨Proofs.metadataOf_sorted strings files, Proofs.metadataOf_mem strings files, Proofs.metadataOf_lookup strings files⟩
+
+/-- ... and with it the configuration handed to the writer is `OptsOK` (the hypothesis of the writer,
+format and round-trip theorems) for every accepted command line outside the misuse set, whatever
+metadata is given (keys are Rust `String`s, hence UTF-8). -/
+theorem cli_options_with_metadata_ok (a : Options.CompressArgs) (p : Options.CompressParsed)
+    (h : Options.parseCompress a = .ok p) (hm : NotMisuse p.cmd.opts.cfg)
+    (strings files : List (Bytes × Bytes)) (hk : ∀ e ∈ strings ++ files, utf8Valid e.1 = true) :
+    OptsOK { p.cmd.opts with metadata := Options.metadataOf strings files } := by
+  have ho := (Proofs.cli_options_ok_iff a p h).2 hm
+  obtain ⟨hu, hs⟩ := Proofs.metadataOf_optsOK strings files hk
+  exact { valid := ho.valid, accepted := ho.accepted, u32 := ho.u32, hash_len := ho.hash_len, compr := ho.compr,
+          meta_utf8 := hu, meta_sorted := hs }
+
+example : Options.metadataOf [([98], [1]), ([97], [2]), ([98], [3])] [([97], [4]), ([], [5])] =
+    [([], [5]), ([97], [4]), ([98], [3])] := by decide +kernel
 
 -- non-vacuity: the defaults; a command line with units, a sign and BuzHash; the 4 GiB boundary of F21;
 -- the overflow of the size multiplication; a target average without a filter bit
